@@ -136,10 +136,11 @@ def replay(obj):
 LEVEL_TEXT = ('Proof: for every indent size and every string over the property alphabet the Gallina model of pre_parse returns '
               'and its output is in normal form (balanced, never-negative markers alone on their lines, no empty block, no tabs, '
               'no leading/trailing spaces, non-blank first line, final newline; empty iff blank input), and the content lines are the '
-              'lines of the stripped, tab-expanded text trimmed, in order (theorems C11_pre_parse_nf, C11_keeps_lines_partial; closed '
+              'lines of the tab-expanded input, each trimmed, without the blank lines at both ends, in order - nothing else dropped, added '
+              'or reordered (theorems C11_pre_parse_nf, C11_keeps_lines, C11_blank_input_has_no_lines, C11_keeps_lines_partial; closed '
               'under the global context). The model is tied to parser.py by the pre stage: exhaustive over short indentation sequences '
               'and random layout fuzz for sizes 1..4, through the extracted model; the property oracle is evaluated on the implementation output.')
 LEVEL_NOTE = ('Trusted: Coq kernel; gen_tables_parser.py (regex classes tabulated from the live module); the hand model PreParse.v (tie is '
-              'differential, sampled beyond the exhaustive space); extraction (ExtrOcamlBasic) and driver.ml. Partial: the last step of '
-              '"keeps every line" (whole-text strip = dropping blank edge lines) is checked by the oracle, not proved.')
+              'differential, sampled beyond the exhaustive space); extraction (ExtrOcamlBasic) and driver.ml. The statement is '
+              'over the property alphabet (alphabet_ok: no \\r, \\x0b, \\x0c, \\x1c-\\x1f, \\x85, U+2028/9 or other non-space whitespace); outside it the oracle decides.')
 TECHNIQUE = 'Rocq proof by induction over lines with a stack invariant + differential run of the extracted model'
